@@ -317,9 +317,9 @@ class Mirror:
 
     def __init__(self):
         self.ops = []
-        self.parts = []     # dict(live, cft)
+        self.parts = []     # dict(live)
         self.topics = []    # dict(p, name, live)   proxies
-        self.cfts = []      # dict(p, name, rel)
+        self.cfts = []      # dict(p, name, rel, live)
         self.pubs = []      # dict(p, live)
         self.subs = []
         self.ws = []        # dict(p, g, name, live)
@@ -347,12 +347,16 @@ class Mirror:
         return any(e["live"] and e["g"] == g for e in self.eps(sd))
 
     def name_in_use(self, p, name):
-        return any(e["live"] and e["p"] == p and e["name"] == name for e in self.ws + self.rs)
+        return (any(e["live"] and e["p"] == p and e["name"] == name for e in self.ws + self.rs)
+                or any(c["live"] and c["p"] == p and c["rel"] == name for c in self.cfts))
+
+    def cft_exists(self, p, cname):
+        return self.plive(p) and any(c["live"] and c["p"] == p and c["name"] == cname for c in self.cfts)
 
     def part_empty(self, p):
         return (not any(x["live"] and x["p"] == p for x in self.pubs + self.subs)
                 and not any(self.names.get((p, t["name"]), False) for t in self.topics if t["p"] == p)
-                and not any(c["p"] == p for c in self.cfts))
+                and not any(c["live"] and c["p"] == p for c in self.cfts))
 
     # -- ops
     def emit(self, s):
@@ -375,7 +379,7 @@ class Mirror:
         self.emit("CFT %d %d %d" % (p, cname, t))
         tp = self.topics[t]
         if 0 <= p < len(self.parts) and self.name_exists(tp["p"], tp["name"]):
-            self.cfts.append({"p": tp["p"], "name": cname, "rel": tp["name"]})
+            self.cfts.append({"p": tp["p"], "name": cname, "rel": tp["name"], "live": True})
             return len(self.cfts) - 1
         return None
 
@@ -398,10 +402,10 @@ class Mirror:
         self.emit("RC %d %d %s" % (g, c, spec))
         gp = self.subs[g]
         cf = self.cfts[c]
-        # resolved in the subscriber's participant: a cft of that name, then its related topic
-        cands = [x for x in self.cfts if x["p"] == gp["p"] and x["name"] == cf["name"]]
+        # resolved in the subscriber's participant: a live cft of that name, then its related topic
+        cands = [x for x in self.cfts if x["live"] and x["p"] == gp["p"] and x["name"] == cf["name"]]
         if self.glive("SUB", g) and cands and self.name_exists(gp["p"], cands[0]["rel"]):
-            self.rs.append({"p": gp["p"], "g": g, "name": "cft", "live": True})
+            self.rs.append({"p": gp["p"], "g": g, "name": "cft", "cft": cf["name"], "live": True})
             return len(self.rs) - 1
         return None
 
@@ -437,11 +441,18 @@ class Mirror:
 
     def delCFT(self, c, via=None):
         self.emit("delCFT %d%s" % (c, "" if via is None else " %d" % via))
+        x = self.cfts[c]
+        cands = [y for y in self.cfts if y["live"] and y["p"] == x["p"] and y["name"] == x["name"]]
+        used = any(e["live"] and e["p"] == x["p"] and e.get("cft") == x["name"] for e in self.rs)
+        if self.plive(x["p"]) and cands and not used:
+            cands[0]["live"] = False     # the first entry of that name goes
+            return True
+        return False
 
     def delall(self, p):
         self.emit("delall %d" % p)
         if self.plive(p):
-            for x in self.pubs + self.subs + self.ws + self.rs + self.topics:
+            for x in self.pubs + self.subs + self.ws + self.rs + self.topics + self.cfts:
                 if x["p"] == p:
                     x["live"] = False
             for k in list(self.names):
